@@ -19,7 +19,7 @@
    Preserving or Observe step as a CASE; PreserveTrace validates what the real code did.        *)
 EXTENDS ERat, FiniteSets, TLC, Json
 
-CONSTANTS Models,      \* subset of {"pheno", "mox2", "linear", "pred"}; "pred" = a $PRED model with one eta, two parameters
+CONSTANTS Models,      \* subset of {"pheno", "mox2", "linear", "pred", "flag"}; "pred" = a $PRED model with one eta, two parameters
                        \* without eta and a logical-IF covariate statement after the eta assignments
           MaxHist,
           Acts         \* tokens enabled in this configuration
@@ -29,7 +29,7 @@ vars == <<m, hist, ver, nm>>
 
 Structural == {"S:FO", "S:PER", "S:TR", "S:LAG", "S:ZOE", "S:MM"}
 Extension  == {"X:ADDIIV", "X:COVLIN", "X:COVCAT", "X:COVPW", "X:IOV", "X:BOXCOX", "X:COMB", "X:IIVRUV", "X:POWER", "X:TV"}
-Data       == {"D:FIXTH", "D:ZEROOM"}
+Data       == {"D:FIXTH", "D:ZEROOM", "D:FIXVAR1"}
 Preserving == {"P:MU", "P:DECL", "P:CLEAN", "P:SIMP", "P:GREEK", "P:RENAME", "P:SOLVE", "P:GENERIC", "P:NONMEM",
                "P:UNLOAD", "P:LOAD", "P:UNUSED", "P:JOINT", "P:SPLIT", "P:FIXED", "P:NONRANDOM"}
 Observe    == {"O:OBS", "O:IPRED", "O:PRED", "O:ETAGRAD", "O:EPSGRAD", "O:EVAL"}
@@ -48,6 +48,7 @@ Function ==
           [] t = "X:IIVRUV" -> "set_iiv_on_ruv" [] t = "X:POWER" -> "set_power_on_ruv"
           [] t = "X:TV" -> "set_time_varying_error_model"
           [] t = "D:FIXTH" -> "fix_parameters(theta)" [] t = "D:ZEROOM" -> "fix_parameters_to(omega, 0)"
+          [] t = "D:FIXVAR1" -> "fix_parameters_to({first omega: 1, first sigma: 1})"
           [] t = "P:MU" -> "mu_reference_model" [] t = "P:DECL" -> "make_declarative" [] t = "P:CLEAN" -> "cleanup_model"
           [] t = "P:SIMP" -> "simplify_expression" [] t = "P:GREEK" -> "greekify_model" [] t = "P:RENAME" -> "rename_symbols"
           [] t = "P:SOLVE" -> "solve_ode_system" [] t = "P:GENERIC" -> "convert_model(generic)"
@@ -69,7 +70,7 @@ ASSUME Acts \subseteq AllActs
 
 Start(name) ==
     [model |-> name,
-     ode  |-> name \notin {"linear", "pred"},   \* the model still has its ODE system
+     ode  |-> name \notin {"linear", "pred", "flag"},   \* the model still has its ODE system
      fmt  |-> IF name = "linear" THEN "nonmem" ELSE "nonmem",
      data |-> TRUE,
      names |-> "orig",                \* "orig" | "greek" | "given"
@@ -77,7 +78,9 @@ Start(name) ==
      abs  |-> name = "mox2",          \* has a depot
      per  |-> 0, tr |-> 0, lag |-> FALSE, elim |-> "FO",
      ext  |-> {},                     \* extensions applied
-     fixth |-> FALSE, zeroom |-> FALSE]
+     \* "flag": a $PRED model with a fixed theta, an initialisation FLAG = 1 and an IF/ELSE whose last branch is 0
+     fixth |-> name = "flag", zeroom |-> FALSE,
+     fixvar |-> FALSE]                \* a variance fixed to a NON-ZERO value: its eta / epsilon is still random
 
 Init == /\ \E n \in Models : m = Start(n)
         /\ hist = <<>> /\ ver = 0 /\ nm = <<>>
@@ -105,6 +108,7 @@ Enabled(t) ==
       [] t \in {"X:IIVRUV", "X:POWER", "X:TV"} -> PK /\ m.ext \cap {"X:IIVRUV", "X:POWER", "X:TV"} = {} /\ m.names = "orig"
       [] t = "D:FIXTH"  -> PK /\ ~m.fixth /\ m.names = "orig"
       [] t = "D:ZEROOM" -> ~m.zeroom /\ m.names = "orig" /\ ~m.joint
+      [] t = "D:FIXVAR1" -> ~m.fixvar /\ m.names = "orig" /\ ~m.joint
       [] t = "P:SOLVE"  -> PK /\ Linear1 /\ m.names = "orig"
       [] t = "P:GENERIC" -> m.fmt = "nonmem"
       [] t = "P:NONMEM" -> m.fmt = "generic"
@@ -128,6 +132,7 @@ Apply(t) ==
       [] t \in Extension -> [m EXCEPT !.ext = @ \cup {t}]
       [] t = "D:FIXTH"  -> [m EXCEPT !.fixth = TRUE]
       [] t = "D:ZEROOM" -> [m EXCEPT !.zeroom = TRUE]
+      [] t = "D:FIXVAR1" -> [m EXCEPT !.fixvar = TRUE]
       [] t = "P:SOLVE"  -> [m EXCEPT !.ode = FALSE]
       [] t = "P:GENERIC" -> [m EXCEPT !.fmt = "generic"]
       [] t = "P:NONMEM" -> [m EXCEPT !.fmt = "nonmem"]
@@ -156,6 +161,11 @@ DoPreserving == \E t \in Preserving : Step(t)
 DoObserve    == \E t \in Observe : Step(t)
 Next == DoStructural \/ DoExtension \/ DoData \/ DoPreserving \/ DoObserve
 Spec == Init /\ [][Next]_vars
+
+\* The result of a transformation of a NONMEM model is also the code generated for it: where the re-read code can be
+\* compared by name (no ODE system whose compartments the ADVAN template renames - C02's ground -, original names),
+\* the fingerprint of read_model_from_string(result.code) must be the preserved one as well.
+CodeBacked(mm) == mm.fmt = "nonmem" /\ ~mm.ode /\ mm.names = "orig"
 
 \* ---------------------------------------------------------------- design-level checks
 TypeOK == /\ m.per \in 0..2 /\ m.tr \in {0, 2} /\ m.elim \in {"FO", "ZO", "MM"} /\ m.fmt \in {"nonmem", "generic"}
